@@ -40,6 +40,55 @@ Proof.
   rewrite Hs, shape_eqb_refl, (map_wrap_id d l Hd Hl). reflexivity.
 Qed.
 
+(* ------------------------------------------------------------------ broadcasting *)
+Lemma chunks_spec (n k : nat) (l : list Z) :
+  length l = (k * n)%nat ->
+  concat (chunks n k l) = l /\ Forall (fun c => length c = n) (chunks n k l).
+Proof.
+  revert l. induction k as [|k IH]; intros l H; cbn [chunks concat].
+  - destruct l; [split; [reflexivity|constructor]|discriminate].
+  - assert (Hs : length (skipn n l) = (k * n)%nat) by (rewrite skipn_length; lia).
+    destruct (IH _ Hs) as [Hc Hf]. split.
+    + rewrite Hc. apply firstn_skipn.
+    + constructor; [rewrite firstn_length; lia|exact Hf].
+Qed.
+
+Lemma concat_opt_map (f : list Z -> option (list Z)) (cs : list (list Z)) :
+  Forall (fun c => f c = Some c) cs -> concat_opt (map f cs) = Some (concat cs).
+Proof.
+  induction 1 as [|c cs Hc _ IH]; cbn [map concat_opt concat]; [reflexivity|].
+  rewrite Hc, IH. reflexivity.
+Qed.
+
+Lemma prodZ_nonneg sh : Forall (fun d => 0 <= d) sh -> 0 <= prodZ sh.
+Proof. induction 1; cbn [prodZ fold_right]; [lia|]. fold (prodZ l). nia. Qed.
+
+(* broadcasting to the same shape is the identity: the shortcut in `broadcast` agrees with `bcast` *)
+Lemma bcast_same sh : Forall (fun d => 0 <= d) sh ->
+  forall data, Z.of_nat (length data) = prodZ sh -> bcast sh sh data = Some data.
+Proof.
+  induction 1 as [|d ds Hd Hds IH]; intros data Hl; cbn [bcast]; [reflexivity|].
+  rewrite Z.eqb_refl. cbn [prodZ fold_right] in Hl. fold (prodZ ds) in Hl.
+  pose proof (prodZ_nonneg ds Hds) as Hp.
+  assert (Hn : length data = (Z.to_nat d * Z.to_nat (prodZ ds))%nat).
+  { rewrite <- Z2Nat.inj_mul by lia. rewrite <- Hl. rewrite Nat2Z.id. reflexivity. }
+  destruct (chunks_spec _ _ _ Hn) as [Hc Hf].
+  rewrite concat_opt_map.
+  - rewrite Hc. reflexivity.
+  - eapply Forall_impl; [|exact Hf]. cbv beta. intros c Hlen. apply IH. rewrite Hlen. rewrite Z2Nat.id by lia. reflexivity.
+Qed.
+
+Lemma align_same sh : align_shape sh sh = Some sh.
+Proof. unfold align_shape. rewrite Nat.leb_refl, Nat.sub_diag. reflexivity. Qed.
+
+(* the general broadcasting path gives what the equal-shape shortcut of `broadcast` returns *)
+Theorem broadcast_shortcut_sound : forall (sh : list Z) (a : arr),
+  Forall (fun d => 0 <= d) sh -> a_shape a = sh -> Z.of_nat (length (a_data a)) = prodZ sh ->
+  match align_shape sh (a_shape a) with Some s' => bcast sh s' (a_data a) | None => None end = broadcast sh a.
+Proof.
+  intros sh a Hsh Ha Hl. unfold broadcast. rewrite Ha, shape_eqb_refl, align_same. apply bcast_same; assumption.
+Qed.
+
 (* ------------------------------------------------------------------ binary64 round trip *)
 Lemma log2_bitlen x : 0 < x -> 2 ^ (Z.log2 x) <= x < 2 ^ (Z.log2 x + 1).
 Proof. intros H. pose proof (Z.log2_spec x H) as L. replace (Z.succ (Z.log2 x)) with (Z.log2 x + 1) in L by lia. exact L. Qed.
